@@ -228,14 +228,22 @@ impl Cx {
         }
         if let Some((sig, desc)) = &out.violation {
             let known = self.known.contains(sig);
+            let cv = case_val.unwrap();
             if let Some(v) = g.violations.iter_mut().find(|v| v.signature == *sig && v.section == section) {
                 v.count += 1;
+                // keep the smallest (then lexicographically first) counterexample: deterministic
+                // under parallel exploration and the easiest to read
+                let (a, b) = (cv.to_string(), v.case.to_string());
+                if (a.len(), &a) < (b.len(), &b) {
+                    v.case = cv;
+                    v.desc = desc.clone();
+                }
             } else {
                 g.violations.push(ViolationRec {
                     section: section.to_string(),
                     signature: sig.clone(),
                     desc: desc.clone(),
-                    case: case_val.unwrap(),
+                    case: cv,
                     count: 1,
                     known,
                 });
